@@ -70,7 +70,7 @@ LINEAGES = {
 BASE_SEEDS = {'quick': (1, 3, 4), 'thorough': tuple(range(40))}   # fixed list, used for each of the four languages
 EXTRA_SEEDS = {'quick': 1, 'thorough': 8}     # additional seeds drawn from VERIF_SEED (extend, never replace)
 WORKERS = {'quick': 8, 'thorough': 12}        # the real generator / translators / mutations cost 1-15 s per lineage
-BUDGET_S = {'quick': 42, 'thorough': 780}     # tasks not finished in time are counted in `unfinished_tasks`
+BUDGET_S = {'quick': 36, 'thorough': 780}     # tasks not finished in time are counted in `unfinished_tasks`
 
 
 class _R:
@@ -357,7 +357,8 @@ def context_view(program, node_cls):
             cur = getters[kind](ns, only_current=True)
             for name, decl in cur.items():
                 names.append((ns, kind, name, type(decl).__name__))
-                (rev if type(decl).__hash__ is node_cls.__hash__ else rev_ty).append((ns, kind, name, ctx.get_namespace(decl)))
+                by_identity = type(decl).__hash__ is node_cls.__hash__
+                (rev if by_identity else rev_ty).append((ns, kind, name, ctx.get_namespace(decl)))
     rev_ty.append(('<number of entries of the reverse index>', len(ctx._namespaces)))
     return names, rev, rev_ty
 
